@@ -29,9 +29,9 @@ RULE = ('Generated long-format frames (1-9 geos, 4-60 dates; shuffled rows; int 
 ASSUMPTIONS = ['dates are datetime64 or ISO strings (sortable = chronological); no duplicate (geo, date) rows; no NaN responses',
                'row-order ties in mean response (within 1e-12 relative) may appear in either order']
 EXHAUSTIVE = {'quick': False, 'thorough': False}
-MINIMA = {'quick': {'second_live_object': 80, 'objects': 300, 'aggregates_checked': 2000, 'reject_expected': 20, 'dropped_rows_cases': 20,
+MINIMA = {'quick': {'all_nan_geo_cases': 25, 'eligibility_objects_compared': 250, 'second_live_object': 80, 'objects': 300, 'aggregates_checked': 2000, 'reject_expected': 20, 'dropped_rows_cases': 20,
                     'distinct_nontrivial': 100},
-          'thorough': {'second_live_object': 1000, 'objects': 4000, 'aggregates_checked': 30000, 'reject_expected': 300, 'dropped_rows_cases': 300,
+          'thorough': {'all_nan_geo_cases': 300, 'eligibility_objects_compared': 3000, 'second_live_object': 1000, 'objects': 4000, 'aggregates_checked': 30000, 'reject_expected': 300, 'dropped_rows_cases': 300,
                        'distinct_nontrivial': 1500}}
 N = {'quick': 480, 'thorough': 6000}
 
@@ -102,14 +102,47 @@ def run_case(spec):
       if r.random() < 0.5:
         rows['ZZopt'] = 'ctx'
         extra['ZZopt'] = 'ctx'
+  nan_geo = None
+  if spec['idx'] % 7 == 3 and geo_dtype == 'native' and mode != 'superset_required':
+    # a geo that is listed in the frame but has no usable observation at all (every response missing): for the
+    # canonical table it is absent from the data, so its eligibility row is treated like that of any absent geo
+    nan_geo = 'ZZnan' if id_style in ('str', 'numstr') else 987654
+    add_rows = pd.DataFrame({'geo': [nan_geo] * D, 'date': list(panel['dates']), resp: [float('nan')] * D})
+    for c_ in frame.columns:
+      if c_ not in add_rows.columns:
+        add_rows[c_] = 1.0
+    frame = pd.concat([frame, add_rows[list(frame.columns)]], ignore_index=True)
+    frame = frame.sample(frac=1.0, random_state=r.randrange(1 << 30)).reset_index(drop=True)
+    if rows is not None:
+      if r.random() < 0.7:
+        rows[str(nan_geo)] = r.choice(['x_fixed', 'cx', 'tx', 'ctx'])
+        extra[str(nan_geo)] = rows[str(nan_geo)]
+        if mode == 'equal':
+          mode = 'superset_excludable'
+      else:
+        rows[str(nan_geo)] = r.choice(['c_fixed', 't_fixed', 'ct'])
+        extra[str(nan_geo)] = rows[str(nan_geo)]
+        mode = 'superset_required'
+    counters['all_nan_geo_cases'] += 1
   desc = {'geos': ids, 'id_style': id_style, 'sign': sign, 'geo_dtype': geo_dtype, 'n_dates': D, 'panel_class': cls, 'elig_mode': mode,
-          'eligibility': rows, 'response_column': resp}
+          'eligibility': rows, 'response_column': resp, 'all_nan_geo': nan_geo}
   before = sl.frame_fingerprint(frame)
   elig = None
   if rows is not None:
     elig = emod.GeoEligibility(gen.elig_frame(rows, random.Random(spec['idx']), index_keyed=r.random() < 0.4))
+  elig_before = elig.data.copy(deep=True) if elig is not None else None
   out = util.call(dmod.TBRMMData, frame, resp, elig)
   counters['constructions'] += 1
+  if elig is not None:
+    try:
+      same_elig = elig.data.equals(elig_before) and list(elig.data.index) == list(elig_before.index)
+    except Exception:  # pylint: disable=broad-except
+      same_elig = False
+    counters['eligibility_objects_compared'] += 1
+    if not same_elig:
+      violations.append({'clause': 'input-mutated', 'mech': 'data-eligibility-object-mutated',
+                         'detail': 'the caller\'s GeoEligibility object changed during TBRMMData(): %d rows before, %d after' % (
+                             len(elig_before), len(elig.data))})
   if sl.frame_fingerprint(frame) != before:
     violations.append({'clause': 'input-mutated', 'mech': 'data-input-mutated', 'detail': 'caller frame changed by TBRMMData()'})
   expect_reject = mode == 'superset_required'
